@@ -277,9 +277,9 @@ L2_DEST = [
     "&amp;", "/u&auml;", "/u&", "/u&#35;", "/u&#x2;", "\\&amp;", "/u\\\\", "/u\\", "/u#f", "#", "?q=1&r=2", '/u"q', "/u'q", "a:b", "http://a.b/c?d=e#f",
     "/u\tv", "/u v", " /u ", "\n/u", "/u*e*", "/u_e_", "/u`c`", "/u<b>", "/u[l]", "/u]", "<a\\>b>", "<a<b>", "</u", "/%41%zz%4",
 ]
-L2_TITLE = ["", ' "t"', " 't'", " (t)", ' "t\\"q"', ' "t&amp;%41"', ' "multi\nline"', ' "t" x', ' "unclosed', '  "t"  ', ' ""', ' "t\\\nx"', " ('n')", '"t"', "\n'next line'", ' "a\n\nb"']
+L2_TITLE = ["", ' "t"', " 't'", " (t)", ' "t\\"q"', ' "t&amp;%41"', ' "multi\nline"', ' "t" x', ' "unclosed', '  "t"  ', ' ""', ' "t\\\nx"', " ('n')", '"t"', "\n'next line'", ' "a\n\nb"', '\n  "t\nu"', '\n   (t)']
 L2_KIND = ["link", "image", "lrd", "lrd-then-text", "angle"]
-L2_HOST = [("", ""), ("> ", "> "), ("- ", "  "), ("# ", None)]
+L2_HOST = [("", ""), ("> ", "> "), ("- ", "  "), ("# ", None), ("", "SETEXT")]
 
 
 def _l2(dest, title, kind, host):
@@ -297,6 +297,8 @@ def _l2(dest, title, kind, host):
     if cont is None:  # heading host: single line only
         body = body.replace("\n", " ")
         return first + body + "\n"
+    if cont == "SETEXT":  # multi-line setext heading (a blank line inside ends it: the document is still valid input)
+        return body + " *e*\n===\n"
     return wrap(body + "\n", first, cont) if first else body + "\n"
 
 
@@ -338,10 +340,10 @@ def _l4(fence, ind, info, body, close, host):
     return wrap(body, *host) if host[0] else body
 
 
-L5_MARK = ["-", "*", "+", "1.", "1)", "0.", "007.", "123456789.", "1234567890."]
+L5_MARK = ["-", "*", "+", "1.", "1)", "0.", "007.", "123456789.", "1234567890.", "9.", "99)"]
 L5_GAP = [" ", "  ", "   ", "    ", "     ", "\t", ""]
 L5_FIRST = ["a", "", "# h", "```\nc\n```", "> q", "    code", "- n", "---", "[l]: /u", "<div>"]
-L5_SECOND = ["none", "cont-1", "cont", "cont+1", "cont+4", "lazy", "blank-cont", "blank-cont+4", "blank-lazy", "same", "other", "next", "blank-same", "2blank-same", "cont-# h", "sub", "sub-1"]
+L5_SECOND = ["none", "cont-1", "cont", "cont+1", "cont+4", "lazy", "blank-cont", "blank-cont+4", "blank-lazy", "same", "other", "next", "blank-same", "2blank-same", "cont-# h", "sub", "sub-1", "next-empty", "next-blanks", "next-empty-next"]
 L5_HOST = [("", ""), ("> ", "> "), ("  ", "  ")]
 
 
@@ -360,9 +362,246 @@ def _l5(mark, gap, first, second, host):
         "lazy": ["b"], "blank-cont": ["", " " * w + "b"], "blank-cont+4": ["", " " * (w + 4) + "b"], "blank-lazy": ["", "b"], "same": [mark + " b"],
         "other": [other + " b"], "next": [nxt + " b"], "blank-same": ["", mark + " b"], "2blank-same": ["", "", mark + " b"], "cont-# h": [" " * w + "# h"],
         "sub": [" " * w + "- s"], "sub-1": [" " * max(w - 1, 0) + "- s"],
+        "next-empty": [nxt], "next-blanks": [nxt + "   "], "next-empty-next": [nxt, (str(int(nxt[:-1]) + 1) + nxt[-1] if nxt[0].isdigit() else nxt) + " c"],
     }[second]
     body = "\n".join(lines + add) + "\n"
     return wrap(body, *host) if host[0] else body
+
+
+# ---------------------------------------------------------------------------- extension syntax matrix (GFM extensions)
+X3_PRE = ["", "a ", "(", "*", "_", "~", "x", "<", "[", '"']
+X3_CORE = [
+    "www.a.b", "www.a_b.c", "www.a.b_c", "www.a", "www.", "http://a.b", "https://a.b-c.d", "http://a", "http://", "ftp://a.b", "mailto:a@b.c", "xmpp:a@b.c",
+    "xmpp:a@b.c/d", "a@b.c", "a+b@c.d", "a@b.c-", "a@b_c.d", "a.b@c", "@b.c", "~~s~~", "~s~", "~~~s~~~", "~~s~", "[ ]", "[x]",
+]
+X3_TAIL = ["", "/p", "/p?q=1&r", "/p(q)", "/p(q", "/p)", "/p.", "/p?!", "/p&amp;", "/p&amp", "/p<x", "/p*", "/p_", "/p~", "/p'", '/p"', ":80/x", "#f"]
+X3_POST = ["", " x", ".", ")", "\ny", "*"]
+X3_HOST = [("", ""), ("> ", "> "), ("- ", "  "), ("# ", None), ("1. ", "   ")]
+
+
+def _x3(pre, core, tail, post, host):
+    body = pre + core + tail + post
+    first, cont = host
+    if cont is None:
+        return first + body.replace("\n", " ") + "\n"
+    return wrap(body + "\n", first, cont) if first else body + "\n"
+
+
+class AliasUniverse(Universe):
+    """The documents of a base universe under another name: `X2@ext` = X2 evaluated with every GFM extension enabled
+    (the name keys the known-finding rank sets, the documents are the base universe's)."""
+
+    def __init__(self, name, base):
+        self.name = name
+        self.base = get(base)
+        self.size = self.base.size
+
+    def doc(self, rank):
+        return self.base.doc(rank)
+
+
+# ---------------------------------------------------------------------------- rule-trigger lines (scan / fix properties)
+Q2_LINES = [
+    "# h", "#h", "#  h", "# h #", "#h#", "# h  #", "#  h #", " # h", "# h.", "## h", "### h", "h\n===", "- a", "* a", "+ a", "-  a", " - a", "  - a", "1. a", "2. a",
+    "1.  a", "> q", ">  q", ">q", "```\nc\n```", "```py\n$ ls\n```", "~~~\nc\n~~~", "    code", "---", "***", "text", "text  ", "text\t", "a\tb", "<b>x</b>", "<div>",
+    "http://a.b", "<http://a.b>", "**bold**", "** bold **", "*e*", "` c`", "`c `", "[ a](/u)", "[a]()", "[a](#)", "![](/u)", "![a](/u)", "(a)[/u]", "[a]: /u",
+    "this paragraph", "", "word " * 17 + "end", "- [ a ](/u)  ",
+]
+
+
+# ---------------------------------------------------------------------------- inline context x inline rule trigger, same paragraph
+P3_A = [
+    "plain words", "a &amp;&amp;&amp; b", "a &copy; &#35; b", "a \\* \\_ \\[ b", "a\tb\tc", "a `code` b", "a ``co`de`` b", "a *em* **st** b", "a _em_ b",
+    "a [l](/u \"t\") b", "a ![i](/u) b", "a <b>raw</b> c", "a <http://x.y> b", "hard break  ", "hard break\\", "café über 艨", "a [ref] b",
+    "a " + "long " * 16 + "b", "a * b", "a ` b", "a [ b", "a ] b", "&amp;", "\\",
+]
+P3_B = [
+    "c * d * e", "x ** y** z", "x __y __ z", "an ` invalid` span", "an `x ` y", "see http://bare.url here", "see https://a.b/c?d=e. ok", "[ a](/u) x", "[a ](/u) x",
+    "[a]() x", "[a](#) x", "![](/u) x", "![ ](/u) x", "this paragraph here", "<b>raw</b> x", "text  ", "a\tb", "(a)[/u] x", "*all emphasised*", "word " * 17 + "end",
+    "# not heading", "#nospace", "x [l](/u) y `c` *e*",
+]
+P3_SEP = ["\n", " ", "\n\n"]
+P3_HOSTS = [("", ""), ("> ", "> "), ("- ", "  "), ("1. ", "   "), ("> ", "")]  # last: B as a lazy continuation line
+
+
+def _p3(host, sep, b, a):
+    body = a + sep + b + "\nlast line\n"
+    first, cont = host
+    if not first:
+        return body
+    if cont == "":
+        lines = body.split("\n")
+        return "\n".join([first + lines[0]] + lines[1:])
+    return wrap(body, first, cont)
+
+
+# ---------------------------------------------------------------------------- ATX heading forms
+H5_HASH = ["#", "##", "######"]
+H5_LEAD = ["", " ", "   ", "    "]
+H5_GAP = [" ", "  ", "\t", ""]
+H5_TEXT = ["h", "h#", "h \\#", "h #x", "*e* `c`", "", "h  i", "C#"]
+H5_CLOSE = ["", " #", " ##", "#", " # ", " #\t", "  ##  ", " # #", " \\#"]
+H5_TRAIL = ["", " ", "   ", "\t"]
+H5_HOST = [("", ""), ("> ", "> "), ("- ", "  ")]
+
+
+def _h5(host, trail, close, text, gap, lead, hashes):
+    body = lead + hashes + gap + text + close + trail + "\nnext\n"
+    return wrap(body, *host) if host[0] else body
+
+
+# ---------------------------------------------------------------------------- several fixable inline items in one text
+M3_UNITS = ["* a *", "*a*", "** a **", "_ a _", "` a `", "`a`", "[ a ](/u)", "a", "&amp;", "\\*", "this", "http://a.b"]
+
+
+class M3Universe(Universe):
+    """2-4 inline units, each a construct an inline rule looks at or fixes (spaced emphasis / code span / link label, proper
+    name, bare URL) or something that shifts offsets (entity, escape), joined by ` x ` in one paragraph or ATX heading:
+    several reports and several fixes against the same text token."""
+
+    name = "M3"
+
+    def __init__(self):
+        self.k = len(M3_UNITS)
+        self.blocks = []
+        start = 0
+        for n in (2, 3, 4):
+            self.blocks.append((start, n))
+            start += self.k**n * 2
+        self.size = start
+
+    def doc(self, rank):
+        for start, n in reversed(self.blocks):
+            if rank >= start:
+                r = rank - start
+                break
+        host = r % 2
+        r //= 2
+        units = []
+        for _ in range(n):
+            units.append(M3_UNITS[r % self.k])
+            r //= self.k
+        body = " x ".join(reversed(units))
+        return ("# t " + body + "\n") if host else ("t " + body + " end\n")
+
+
+# ---------------------------------------------------------------------------- list items with independent indentation
+L6_MARK = ["-", "*", "1.", "2."]
+L6_IND = ["", " ", "  ", "   "]
+L6_TAIL = ["", "cont", "para", "sub", "para-lazy"]
+
+
+def _l6_item(ind, mark, text, tail):
+    w = len(ind) + len(mark) + 1
+    lines = [ind + mark + " " + text]
+    if tail == "cont":
+        lines.append(" " * w + text + "2")
+    elif tail == "para":
+        lines += ["", " " * w + text + "2"]
+    elif tail == "sub":
+        lines.append(" " * w + "- s")
+    elif tail == "para-lazy":
+        lines += ["", " " * max(w - 1, 0) + text + "2"]
+    return lines
+
+
+def _l6(m1, i1, t1, m2, i2, t2, host):
+    body = "\n".join(_l6_item(i1, m1, "a", t1) + _l6_item(i2, m2, "b", t2)) + "\n"
+    return wrap(body, *host) if host[0] else body
+
+
+# ---------------------------------------------------------------------------- runs of blank lines in and around containers
+G2_HOST = [("", ""), ("> ", "> "), ("- ", "  "), ("1. ", "   "), ("> - ", ">   ")]
+G2_COUNT = [1, 2, 3, 4]
+G2_BLANK = ["", "prefix", "prefix-sp", "spaces"]
+G2_BEFORE = ["a", "# h", "```\nc\n```", "- i", "    code"]
+G2_AFTER = ["b", "# g", "```\nd\n```", "", "- j", "    code"]
+
+
+def _g2(host, count, blank, before, after):
+    first, cont = host
+    lines = before.split("\n")
+    lines = [(first if i == 0 else cont) + l for i, l in enumerate(lines)]
+    stripped = cont.rstrip(" ")
+    for _ in range(count):
+        lines.append({"": "", "prefix": stripped, "prefix-sp": stripped + " " if stripped else " ", "spaces": "   "}[blank])
+    if after:
+        lines += [cont + l for l in after.split("\n")]
+    return "\n".join(lines) + "\n"
+
+
+# ---------------------------------------------------------------------------- how a heading ends
+H6_TEXT = ["a", "a.", "a:", "a?", "a!"]
+H6_TAIL = ["", "`c`", "<b>", "![i](/u)", "<http://a.b>", "*e*", "[l](/u)", "&amp;", "\\.", " `c`", "*e.*"]
+H6_FORM = ["# {}", "## {} ##", "{}\n==="]
+H6_HOST = [("", ""), ("> ", "> "), ("- ", "  ")]
+
+
+def _h6(host, form, tail, text):
+    body = form.format(text + tail) + "\n\nnext\n"
+    return wrap(body, *host) if host[0] else body
+
+
+# ---------------------------------------------------------------------------- where a bare URL starts and stops
+U2_SCHEME = ["http", "https", "ftp", "ftps", "HTTP"]
+U2_AFTER = ["://", "://a", ":/", ":", "://`c`", "://*e*", "://<b>", "://\nb", "://a.b ", "://[l](/u)", "://a.b/c?d=e&f#g", "://a.b) ", "://a.b."]
+U2_BEFORE = ["", "a ", "(", "a", "\"", "[x](/u) "]
+U2_HOST = [("", ""), ("> ", "> "), ("- ", "  "), ("# ", None)]
+
+
+def _u2(host, before, after, scheme):
+    body = before + scheme + after
+    first, cont = host
+    if cont is None:
+        return first + body.replace("\n", " ") + "\n"
+    return wrap(body + "\n", first, cont) if first else body + "\n"
+
+
+# ---------------------------------------------------------------------------- lists of 2-3 items with structured item bodies
+L7_ITEM = [["a"], ["a", "a2"], ["a", "", "a2"], ["a", "- n"], ["a", "1. n"], ["a `", "b c", "` d"], ["```", "c", "```"], ["> q"], ["a", "", "a2", "", "    a3"]]
+L7_KIND = ["ul", "ul-wide-second", "ul-wide-all", "ol-123", "ol-111", "ol-999", "ol-9-10-11", "ol-012", "ol-8-9-10-wide"]
+
+
+def _l7_markers(kind, n):
+    if kind == "ul":
+        return ["- "] * n
+    if kind == "ul-wide-second":
+        return ["- "] + ["-    "] * (n - 1)
+    if kind == "ul-wide-all":
+        return ["-   "] * n
+    seq = {"ol-123": [1, 2, 3], "ol-111": [1, 1, 1], "ol-999": [9, 9, 9], "ol-9-10-11": [9, 10, 11], "ol-012": [0, 1, 2], "ol-8-9-10-wide": [8, 9, 10]}[kind]
+    gap = "  " if kind.endswith("wide") else " "
+    return [f"{x}.{gap}" for x in seq[:n]]
+
+
+class L7Universe(Universe):
+    name = "L7"
+
+    def __init__(self):
+        self.ni, self.nk = len(L7_ITEM), len(L7_KIND)
+        self.n2 = self.nk * self.ni**2 * 2
+        self.size = self.n2 + self.nk * self.ni**3 * 2
+
+    def doc(self, rank):
+        n = 2
+        if rank >= self.n2:
+            rank -= self.n2
+            n = 3
+        host = rank % 2
+        rank //= 2
+        kind = L7_KIND[rank % self.nk]
+        rank //= self.nk
+        items = []
+        for _ in range(n):
+            items.append(L7_ITEM[rank % self.ni])
+            rank //= self.ni
+        marks = _l7_markers(kind, n)
+        lines = []
+        for m, it in zip(marks, reversed(items)):
+            for i, l in enumerate(it):
+                lines.append(((m if i == 0 else " " * len(m)) + l) if l else "")
+        body = "\n".join(lines) + "\n"
+        return wrap(body, "> ", "> ") if host else body
 
 
 # ---------------------------------------------------------------------------- character-level neighbourhood
@@ -779,18 +1018,39 @@ def _build():
         "L3": lambda: ProductUniverse("L3", [L3_HOST, L3_BEFORE, L3_FOLLOW, L3_OPEN], lambda h, b, f, o: _l3(o, f, b, h)),
         "L4": lambda: ProductUniverse("L4", [L4_HOST, L4_CLOSE, L4_BODY, L4_INFO, L4_IND, L4_FENCE], lambda h, c, b, i, n, f: _l4(f, n, i, b, c, h)),
         "L5": lambda: ProductUniverse("L5", [L5_HOST, L5_SECOND, L5_FIRST, L5_GAP, L5_MARK], lambda h, s2, f, g, m: _l5(m, g, f, s2, h)),
+        "X3": lambda: ProductUniverse("X3", [X3_HOST, X3_POST, X3_TAIL, X3_CORE, X3_PRE], lambda h, po, t, c, pr: _x3(pr, c, t, po, h)),
+        "Q2": lambda: LinesUniverse("Q2", [""], Q2_LINES, 2, newline_variants=False),
+        "P3": lambda: ProductUniverse("P3", [P3_HOSTS, P3_SEP, P3_B, P3_A], _p3),
+        "H5": lambda: ProductUniverse("H5", [H5_HOST, H5_TRAIL, H5_CLOSE, H5_TEXT, H5_GAP, H5_LEAD, H5_HASH], _h5),
+        "M3": M3Universe,
+        "L6": lambda: ProductUniverse("L6", [[("", ""), ("> ", "> ")], L6_TAIL, L6_IND, L6_MARK, L6_TAIL, L6_IND, L6_MARK], lambda h, t2, i2, m2, t1, i1, m1: _l6(m1, i1, t1, m2, i2, t2, h)),
+        "G2": lambda: ProductUniverse("G2", [G2_HOST, G2_COUNT, G2_BLANK, G2_BEFORE, G2_AFTER], _g2),
+        "H6": lambda: ProductUniverse("H6", [H6_HOST, H6_FORM, H6_TAIL, H6_TEXT], _h6),
+        "U2": lambda: ProductUniverse("U2", [U2_HOST, U2_BEFORE, U2_AFTER, U2_SCHEME], _u2),
+        "L7": L7Universe,
         "E1": E1Universe,
         "Z1": Z1Universe,
     }
 
 
+ALL_EXTENSIONS = ("front-matter", "markdown-strikethrough", "markdown-task-list-items", "markdown-extended-autolinks", "markdown-disallow-raw-html")
+
+
+def extensions_for(name):
+    """Universe names ending in @ext are evaluated with every GFM extension enabled."""
+    return ALL_EXTENSIONS if name.endswith("@ext") else ()
+
+
 def get(name):
     if name not in _REGISTRY:
-        _REGISTRY[name] = _build()[name]()
+        if name.endswith("@ext"):
+            _REGISTRY[name] = AliasUniverse(name, name[: -len("@ext")])
+        else:
+            _REGISTRY[name] = _build()[name]()
     return _REGISTRY[name]
 
 
-ALL = ["B2", "B3", "B4", "I4", "I6", "N1", "W1", "S2", "S3", "U1", "X2", "H4", "M5", "L1", "P2", "R2", "R3", "K7", "T4", "E1", "L2", "L3", "L4", "L5"]
+ALL = ["B2", "B3", "B4", "I4", "I6", "N1", "W1", "S2", "S3", "U1", "X2", "H4", "M5", "L1", "P2", "R2", "R3", "K7", "T4", "E1", "L2", "L3", "L4", "L5", "P3", "H5", "M3", "L6", "G2", "H6", "L7"]
 
 if __name__ == "__main__":
     tot = 0
